@@ -37,7 +37,13 @@ func runBubble(t *testing.T, f func()) (panicked any) {
 // DeriveCfg expands a seed into an explicit run configuration.
 func DeriveCfg(prop string, seed uint64, tier string) *RunCfg {
 	switch prop {
-	case "C02", "C03", "C04", "C06", "C07", "C11", "C15":
+	case "C02", "C04", "C06", "C07":
+		// one run in five has several writers in flight (scenario S2)
+		if simrt.NewRand(seed^0x25).Intn(5) == 0 {
+			return cfgS2(prop, seed, tier)
+		}
+		return cfgS1(prop, seed, tier)
+	case "C03", "C11", "C15":
 		return cfgS1(prop, seed, tier)
 	}
 	if f, ok := cfgByProp[prop]; ok {
